@@ -388,6 +388,15 @@ theorem seq_timetable (t : Rat) (a b : List Ev) (ds : List Rat) (h : a.mapM Ev.d
         simp only [List.cons_append, sched, he, List.sum_cons]
         rw [ih (t + d) ds0 hr, Rat.add_assoc]
 
+/-- `play(reset=True)` after a stop replays the pattern from its beginning: the second pass sends exactly
+    what playing the pattern afresh at the restart time sends (with the node ids the allocator has reached),
+    whatever had been played before the stop. -/
+theorem restart_replays_from_start (w : World) (t0 a b : Rat) (p : EPat) :
+    (playRestart w t0 a b p).1 =
+      (playAllM w t0 [] (cutBefore (t0 + a) t0 (p.evs [] 1))).1 ++
+      (playPattern (playAllM w t0 [] (cutBefore (t0 + a) t0 (p.evs [] 1))).2.1 (t0 + a + b) p).1 := by
+  simp [playRestart, playPattern]
+
 /-! ## Pmono -/
 
 /-- While a Pmono (articulate = false) holds its synth no further node is created, and every command
